@@ -26,7 +26,7 @@ def glib_cflags():
 
 def base_cflags():
     return ["-D" + GUARD, "-I" + VERIF + "/stubs", "-I" + VERIF + "/contracts", "-I" + VERIF + "/spec",
-            "-I" + VERIF + "/units", "-I" + REPO, "-I" + REPO + "/src", "-I" + REPO + "/include"] + glib_cflags()
+            "-I" + VERIF + "/units", "-I" + VERIF, "-I" + REPO, "-I" + REPO + "/src", "-I" + REPO + "/include"] + glib_cflags()
 
 
 @dataclass
@@ -68,6 +68,7 @@ class Unit:
     stubbed_contracts: list = field(default_factory=list)  # callees replaced by a generated contract stub (reporting)
     unwind_assert: bool = True      # False only for kind == "bounded": loops cut at the stated bound without unwinding assertions
     internal_is_property: bool = False  # loop invariants generated from the property itself count as property-level (E2)
+    stub_srcs: list = field(default_factory=list)      # C files (relative to /verif) with contract stubs, compiled separately and linked in after remove_bodies
     link_objs: list = field(default_factory=list)      # [(goto binary, [function bodies to drop from it first])] linked in after remove_bodies
     prop_filter: dict = field(default_factory=dict)    # {property id: regex}: which obligations of this unit belong to which property
 
@@ -267,8 +268,17 @@ def build(u: Unit, r: UnitResult, d: str, cover: bool):
             r.status, r.reason, r.log_tail = "error", "remove-function-body failed", tail(os.path.join(d, "rm.log"))
             return None
         cur = gb1
-    # 2b. link pre-compiled contract-stub binaries (generated engines)
-    for k, (obj, drop) in enumerate(u.link_objs):
+    # 2b. link contract-stub TUs / pre-compiled contract-stub binaries
+    links = list(u.link_objs)
+    for k, ssrc in enumerate(u.stub_srcs):
+        sobj = os.path.join(d, "stub%d%s.gb" % (k, sfx))
+        rc, _ = run(["goto-cc", "-c"] + base_cflags() + ["-D" + x for x in u.defines] + [ssrc if os.path.isabs(ssrc) else os.path.join(VERIF, ssrc), "-o", sobj],
+                    os.path.join(d, "stubcc.log"), timeout=120)
+        if rc != 0:
+            r.status, r.reason, r.log_tail = "error", "stub TU does not compile", tail(os.path.join(d, "stubcc.log"))
+            return None
+        links.append((sobj, []))
+    for k, (obj, drop) in enumerate(links):
         o2 = obj
         if drop:
             o2 = os.path.join(d, "l%d%s.gb" % (k, sfx))
@@ -393,6 +403,7 @@ def run_unit(u: Unit, want_trace=True) -> UnitResult:
             r.status, r.reason = "undecided", "quantifier ignored by back end"
             return r
     unreachable = []
+    undetermined = []
     for o in results:
         pid, desc, st = o.get("property", ""), o.get("description", ""), o.get("status", "")
         loc = o.get("sourceLocation", {})
@@ -415,9 +426,35 @@ def run_unit(u: Unit, want_trace=True) -> UnitResult:
         ob = Obligation(unit=u.name, pid=pid, desc=desc, status=st, klass="property" if u.internal_is_property else classify(pid, desc),
                         loc="%s:%s" % (loc.get("file", ""), loc.get("line", "")))
         r.obligations.append(ob)
-        if st != "SUCCESS":
+        if st == "FAILURE":
             r.failed.append(ob)
-    if u.covers > 0 and (r.covers_sat < u.covers or unreachable):
+        elif st != "SUCCESS":
+            undetermined.append(ob)
+    if r.failed and undetermined:
+        # cbmc leaves obligations UNKNOWN once others have failed: decide them in a second run restricted to exactly those
+        cb2 = [x for x in cb]
+        for ob in undetermined:
+            cb2 += ["--property", ob.pid]
+        log2 = os.path.join(d, "cbmc2.json")
+        rc2, t2 = run(cb2, log2, timeout=u.timeout, mem_gb=u.mem_gb)
+        r.t_solve += t2
+        res2, _, _ = parse_cbmc_json(log2) if rc2 in (0, 10) else (None, None, None)
+        st2 = {o.get("property"): o.get("status") for o in (res2 or [])}
+        still = []
+        for ob in undetermined:
+            ob.status = st2.get(ob.pid, ob.status)
+            if ob.status == "FAILURE":
+                r.failed.append(ob)
+            elif ob.status != "SUCCESS":
+                still.append(ob)
+        undetermined = still
+        if undetermined:
+            r.status, r.reason = "undecided", "%d obligations still %s after the second run" % (len(undetermined), undetermined[0].status)
+            return r
+    if not r.failed and undetermined:
+        r.status, r.reason = "undecided", "%d obligations reported %s by cbmc" % (len(undetermined), undetermined[0].status)
+        return r
+    if not r.failed and u.covers > 0 and (r.covers_sat < u.covers or unreachable):
         r.status, r.reason = "error", "vacuity guard: reachability markers reached %d/%d (need >=%d); unreachable: %s" % (
             r.covers_sat, r.covers_total, u.covers, unreachable[:4])
         return r
